@@ -589,6 +589,9 @@ class Interp:
             pass
         e = _E()
         e.op = op
+        for x, reflected in ((l, False), (r, True)):
+            if isinstance(x, Obj) and "__binop__" in x.fields:
+                return self.call(x.fields["__binop__"], [Const(type(op).__name__), r if not reflected else l, Const(reflected)], {}, None)
         if isinstance(e.op, ast.BitOr):
             return self.dict_union(l, r)
         if isinstance(e.op, ast.Add):
@@ -997,7 +1000,24 @@ class Interp:
             raise ShapeError(f"attribute store on {obj!r}")
         if isinstance(target, ast.Subscript):
             obj = self.eval(target.value, sc)
+            if isinstance(target.slice, ast.Slice):
+                # xs[lo:hi] = iterable replaces the elements of the very list object (every alias sees it)
+                sl = target.slice
+                parts = [self.eval(x, sc) if x is not None else Const(None) for x in (sl.lower, sl.upper, sl.step)]
+                if isinstance(obj, ListLit) and all(isinstance(x, Const) for x in parts) and parts[2].v is None:
+                    if isinstance(value, (ListLit, TupS)):
+                        new = list(value.elts)
+                    elif isinstance(value, (ListOf, Top, Leaf, Choice)):
+                        raise ShapeError(f"slice store of {value!r:.60}")
+                    else:
+                        new = list(self.iterate(value, target))
+                    obj.elts[parts[0].v:parts[1].v] = new
+                    return
+                raise ShapeError(f"slice store on {obj!r:.60}")
             k = self.eval(target.slice, sc)
+            if isinstance(obj, Obj) and getattr(obj, "klass", None) is not None and self.find_class_attr(obj.klass[0], obj.klass[1], "__setitem__") is not None:
+                self.call(self.getattr(obj, "__setitem__"), [k, value], {}, target)
+                return
             if isinstance(k, TupS) and all(isinstance(x, Const) for x in k.elts):
                 k = Const(tuple(x.v for x in k.elts))
             if isinstance(k, Const):
@@ -1447,7 +1467,7 @@ class Interp:
 
     def construct(self, f, args, kwargs, node):
         name = f.name
-        if name in ("Group", "Variable"):
+        if name in ("Group", "Variable") and not getattr(self, "real_hierarchy", False):
             fields = ["path", "url", "data", "attrs"] if name == "Group" else ["dims", "data", "attrs"]
             vals = OrderedDict()
             for i, a in enumerate(args):
